@@ -237,7 +237,8 @@ namespace hmac_cpp {
                 std::fill(key.begin() + hashed.size(), key.end(), 0);
             secure_zero(hashed.data(), hashed.size());
         } else {
-            std::memcpy(key.data(), key_ptr, key_len);
+            if (key_len > 0)
+                std::memcpy(key.data(), key_ptr, key_len);
             if (key_len < block_size)
                 std::fill(key.begin() + key_len, key.end(), 0);
         }
@@ -254,7 +255,8 @@ namespace hmac_cpp {
             throw std::overflow_error("msg_len + block_size overflow");
         secure_buffer<uint8_t> inner_data(block_size + msg_len);
         std::copy(ikeypad.begin(), ikeypad.end(), inner_data.begin());
-        std::memcpy(inner_data.data() + block_size, msg_ptr, msg_len);
+        if (msg_len > 0)
+            std::memcpy(inner_data.data() + block_size, msg_ptr, msg_len);
         secure_buffer<uint8_t> inner_hash(std::move(get_hash(inner_data.data(), inner_data.size(), type)));
 
         if (digest_size > SIZE_MAX - block_size)
